@@ -516,5 +516,48 @@ async fn vxw_c19_event_directory_cap() {
         }
         let _ = fs::remove_dir_all(&dir);
     }
+    // ---- last (stop() is a process-wide, irreversible switch): the logger is told to stop while events are pending and the directory
+    //      is already at its cap - the batch drained on the way out is subject to the cap like any other ("new events are dropped instead")
+    {
+        n += 1;
+        let cap = 3usize;
+        let dir = unique_dir("events_stop");
+        fs::create_dir_all(&dir).unwrap();
+        for i in 0..cap {
+            fs::write(dir.join(format!("{}.json", 978307200000000000u64 + i as u64)), b"[]").unwrap();
+        }
+        let task = tokio::spawn({
+            let dir = dir.clone();
+            async move {
+                super::telemetry::event_logger::start(dir, Duration::from_millis(10), cap, |_| async {}).await;
+            }
+        });
+        for j in 0..3 {
+            super::telemetry::event_logger::write_event(log::Level::Info, format!("vxw event {}", j), "vxw_c19", "vxw_c19", "vxw_c19_no_logger");
+        }
+        tokio::time::sleep(Duration::from_millis(60)).await;
+        let mut worst = listing(&dir).len();
+        for j in 0..3 {
+            super::telemetry::event_logger::write_event(log::Level::Info, format!("vxw last event {}", j), "vxw_c19", "vxw_c19", "vxw_c19_no_logger");
+        }
+        super::telemetry::event_logger::stop();
+        for _ in 0..20 {
+            tokio::time::sleep(Duration::from_millis(10)).await;
+            worst = worst.max(listing(&dir).len());
+            if task.is_finished() {
+                break;
+            }
+        }
+        task.abort();
+        let _ = task.await;
+        worst = worst.max(listing(&dir).len());
+        if worst > cap {
+            println!(
+                "VXW-FAIL {{\"unit\":\"event_logger\",\"cap\":{},\"files_at_start\":{},\"history\":\"3 events (dropped at the cap); 3 more events; stop() before the next tick\",\"got\":\"{} files in the event directory\",\"want\":\"<= {}\"}}",
+                cap, cap, worst, cap
+            );
+        }
+        let _ = fs::remove_dir_all(&dir);
+    }
     println!("VXW-DONE {}", n);
 }
